@@ -308,6 +308,9 @@ def linspace_int_array(e, st, hi, num, name='tstart'):
     st.pc.append(z3.Select(t, num - 1) == hi)
     st.pc.append(z3.ForAll([j], z3.Implies(z3.And(j >= 0, j < num - 1), z3.Select(t, j) <= z3.Select(t, j + 1)),
                            patterns=[z3.Select(t, j + 1)]))
+    j2 = z3.Int('lj2')
+    st.pc.append(z3.ForAll([j, j2], z3.Implies(z3.And(0 <= j, j <= j2, j2 < num), z3.Select(t, j) <= z3.Select(t, j2)),
+                           patterns=[z3.MultiPattern(z3.Select(t, j), z3.Select(t, j2))]))
     k = z3.Int('lk')
     st.pc.append(z3.ForAll([k], z3.Implies(z3.And(k >= 0, k < num), z3.And(z3.Select(t, k) >= 0, z3.Select(t, k) <= hi)),
                            patterns=[z3.Select(t, k)]))
